@@ -254,6 +254,9 @@ package services
 //@ func (*publisherServer).ListTopics$1(tx) (err)
 //@   inline
 //@   loop 1
+//@     invariant ordered: forall j int, k int :: {topics[j], topics[k]} 0 <= j && j < k && k < len(topics) ==> topics[j].ID < topics[k].ID
+//@     invariant rowfacts: forall k int :: {topics[k]} 0 <= k && k < len(topics) ==> topics[k] != nil && topics.exists(topics[k].ID) && topics.name(topics[k].ID) == topics[k].Name
+//@     invariant idx < len(topics)
 //@     invariant forall k int :: {grpcTopics[k]} {topics[k]} 0 <= k && k <= idx ==> grpcTopics[k] != nil && !allocated(grpcTopics[k]) && grpcTopics[k].Name == topics[k].Name
 //@     invariant len(grpcTopics) == len(topics) && req != nil
 
@@ -283,6 +286,9 @@ package services
 //@ func (*subscriberServer).ListSubscriptions$1(tx) (err)
 //@   inline
 //@   loop 1
+//@     invariant ordered: forall j int, k int :: {subs[j], subs[k]} 0 <= j && j < k && k < len(subs) ==> subs[j].ID < subs[k].ID
+//@     invariant rowfacts: forall k int :: {subs[k]} 0 <= k && k < len(subs) ==> subs[k] != nil && subscriptions.exists(subs[k].ID) && subscriptions.name(subs[k].ID) == subs[k].Name
+//@     invariant idx < len(subs)
 //@     invariant forall k int :: {grpcSubscriptions[k]} {subs[k]} 0 <= k && k <= idx ==> grpcSubscriptions[k] != nil && !allocated(grpcSubscriptions[k]) && grpcSubscriptions[k].Name == subs[k].Name
 //@     invariant len(grpcSubscriptions) == len(subs) && req != nil
 
@@ -312,6 +318,9 @@ package services
 //@ func (*subscriberServer).ListSnapshots$1(tx) (err)
 //@   inline
 //@   loop 1
+//@     invariant ordered: forall j int, k int :: {snaps[j], snaps[k]} 0 <= j && j < k && k < len(snaps) ==> snaps[j].ID < snaps[k].ID
+//@     invariant rowfacts: forall k int :: {snaps[k]} 0 <= k && k < len(snaps) ==> snaps[k] != nil && snapshots.exists(snaps[k].ID) && snapshots.name(snaps[k].ID) == snaps[k].Name
+//@     invariant idx < len(snaps)
 //@     invariant forall k int :: {grpcSnapshots[k]} {snaps[k]} 0 <= k && k <= idx ==> grpcSnapshots[k] != nil && !allocated(grpcSnapshots[k]) && grpcSnapshots[k].Name == snaps[k].Name
 //@     invariant len(grpcSnapshots) == len(snaps) && req != nil
 
@@ -339,6 +348,9 @@ package services
 //@ func (*publisherServer).ListTopicSubscriptions$1(tx) (err)
 //@   inline
 //@   loop 1
+//@     invariant ordered: forall j int, k int :: {subs[j], subs[k]} 0 <= j && j < k && k < len(subs) ==> subs[j].ID < subs[k].ID
+//@     invariant rowfacts: forall k int :: {subs[k]} 0 <= k && k < len(subs) ==> subs[k] != nil && subscriptions.exists(subs[k].ID) && subscriptions.name(subs[k].ID) == subs[k].Name
+//@     invariant idx < len(subs)
 //@     invariant forall k int :: {subNames[k]} {subs[k]} 0 <= k && k <= idx ==> subNames[k] == subs[k].Name
 //@     invariant len(subNames) == len(subs) && req != nil
 
@@ -366,3 +378,17 @@ package services
 //@     invariant len(ret.Ack) == len(m.AckIds) && (forall i int :: {ret.Ack[i]} 0 <= i && i < len(m.AckIds) ==> ret.Ack[i] == uuidparse(m.AckIds[i]))
 //@     invariant len(ret.Delay) == len(m.ModifyDeadlineAckIds) && (forall i int :: {ret.Delay[i]} 0 <= i && i < len(m.ModifyDeadlineAckIds) ==> ret.Delay[i] == uuidparse(m.ModifyDeadlineAckIds[i]))
 //@     invariant len(ret.Nack) == 0 && ((ret.FlowControl != nil) == (m == old(w.initial)))
+
+// C02: what a pull hands to the client carries the stored message faithfully: the ack id is the delivery id, the
+// message id the stored message's, payload bytes, attribute map, ordering key and publish time unchanged, and the
+// delivery attempt is the attempt number.
+//@ func entDeliveryToGrpc(m) (ret)
+//@   property C02 C16
+//@   nopanic
+//@   requires m != nil
+//@   ensures fresh: ret != nil && !allocated(ret) && ret.Message != nil
+//@   ensures ids: [C02] ret.AckId == uuidstr(m.ID) && ret.Message.MessageId == uuidstr(m.MessageID)
+//@   ensures payload: [C02] ret.Message.Data == m.Payload
+//@   ensures attributes: [C02] ret.Message.Attributes == m.Attributes && ret.Message.OrderingKey == ite(m.OrderKey != nil, deref(m.OrderKey), "")
+//@   ensures attempt: [C02] 0 <= m.NumAttempts && m.NumAttempts < 2147483648 ==> ret.DeliveryAttempt == m.NumAttempts
+//@   ensures published: [C02] ret.Message.PublishTime != nil && astime(ret.Message.PublishTime) == m.PublishedAt
